@@ -1,5 +1,6 @@
 import TT.Model.Util
 import TT.Model.Creds
+import TT.Model.SettingsKeys
 namespace TT.Driver
 open TT TT.Creds
 
@@ -51,6 +52,9 @@ def c13 (toks : List String) : String :=
       match validate ⟨unspec == "1", port.toNat!, lb == "1", h1 == "1", h2 == "1", q == "1", nc.toNat!, rp⟩ with
       | none => "ok"
       | some _ => "err"
+  | ["key", st, k] =>
+    let fs := TT.SettingsKeys.fieldsOf TT.Gen.settingsKeys st k
+    if fs.isEmpty then "-" else ",".intercalate fs
   | _ => "bad-op"
 
 end TT.Driver
